@@ -83,6 +83,9 @@ func selfTests(id, tier string, seed int64, self string) *SelfTestReport {
 	var cfgs []sim.Config
 	for _, c := range cases {
 		for _, r := range c.Runs {
+			if strings.HasPrefix(r.Role, "fresh-process") {
+				continue // only ever executed in a process of its own (may not survive in this one)
+			}
 			cfgs = append(cfgs, r.Cfg)
 		}
 	}
